@@ -2,6 +2,15 @@
 """Regenerates /verif/MANIFEST.json from the table below (kept in one place so it is always valid)."""
 import json, sys
 CLAIMED = {
+ "C01": dict(engine="E1", design="§5 C01", technique="bounded exhaustive product over field-naming features, real pipeline + per-language extractor vs serde reference model",
+     text="Full product of identifier × serde(rename) × rename_all × placement (struct / variant / enclosing enum) × attribute spelling × 6 languages × 2 configurations, for one field (quick) and ordered pairs of fields (thorough, ~8M executions); each case is run through the real parse→reconcile→generate pipeline, the output is parsed back and the JSON key bound to every field is compared with serde's.",
+     note="Trusted: vendored serde_derive case.rs + precedence rule; the extractors' reading of each backend's key binding (validated on the repository's 303 snapshot outputs and by canned negative controls). Programs outside the alphabet are not covered."),
+ "C02": dict(engine="E1", design="§5 C02", technique="bounded exhaustive product over enum shapes, real pipeline + per-language extractor vs serde reference model (all key facets)",
+     text="Full product of 1–2 (quick) / 1–3 (thorough) variants × 8 payload kinds (incl. generic and recursive) × renames × 9 rename_all × tag/content pairs × attribute style × 6 languages × 2 configurations; every place a backend writes a variant name, the tag key or the content key (e.g. Swift ContainerCodingKeys + each decode/encode forKey, Go's three json tag sites) is compared with serde's value; one case per variant is required.",
+     note="Trusted: vendored serde case.rs; extractor facet collection (negative control with a canned Swift file containing a wrong key). Keyword tag keys are left to C10."),
+ "C13": dict(engine="E1", design="§5 C13", technique="bounded exhaustive enumeration of cfg expressions × target lists × attachment levels vs the documented rule evaluated on the generator's AST",
+     text="All 10 015 cfg expressions of depth ≤ 3 over any/all/not with leaves target_os=a|b|c, feature, unix × all 16 target lists over {a,b,c,d} × 8 attachment levels × 2 attribute orders, pairs and triples of separate cfg attributes; thorough adds all 7.2M depth-4 expressions over a reduced leaf set × 7 lists. Presence of each guarded element is read from the real parser's result.",
+     note="Trusted: the rule as stated in the property / docs; observation through public ParsedData fields. Levels not documented (tuple payloads) are not judged."),
  "C16": dict(engine="E1", design="§5 C16", technique="bounded exhaustive enumeration of identifiers through the real parser vs vendored serde_derive case.rs (reference model)",
      text="Every legal identifier up to length 7 over character-class representatives (and length 5 over second representatives, plus a dictionary) is run through parser::parse under each rename_all rule in field and variant position and compared with serde_derive's own algorithm; exhaustive within the bound, no sampling.",
      note="Trusted: the vendored copy of serde_derive 1.0.214 case.rs; identifiers longer than the bound are covered only by the transducer-size argument."),
